@@ -506,6 +506,18 @@ func (f *Frame) exec(ins ssa.Instruction, pc string, st *State) {
 		}
 		f.set(x, vc.unop(x.Pos(), x.Op, f.val(x.X), x.Type()))
 	case *ssa.Convert:
+		if sl, ok := x.Type().Underlying().(*types.Slice); ok && isString(x.X.Type()) {
+			if b, isB := sl.Elem().Underlying().(*types.Basic); isB && b.Kind() == types.Uint8 {
+				// []byte(s): a fresh region holding the bytes of s
+				sv := f.val(x.X)
+				r := vc.freshRegion(st)
+				mn := vc.memName(sl.Elem())
+				m := vc.memTerm(st, sl.Elem())
+				st.mem[mn] = vc.def("mem", vc.S.memSort(vc.S.sortOf(sl.Elem())), fmt.Sprintf("(store %s %s (gostr.arr %s))", m, r, sv.T))
+				f.set(x, SV{T: fmt.Sprintf("(mk-Slice %s %s (gostr.len %s) (gostr.len %s))", r, vc.S.idxLit(0), sv.T, sv.T)})
+				return
+			}
+		}
 		f.set(x, vc.convert(x.Pos(), f.val(x.X), x.X.Type(), x.Type()))
 	case *ssa.ChangeType:
 		v := f.val(x.X)
@@ -548,8 +560,8 @@ func (f *Frame) exec(ins ssa.Instruction, pc string, st *State) {
 			vc.safety(x.Pos(), pc, "index", vc.inBounds(ix, vc.S.idxLit(u.Len()), x.Index.Type()), "array index in range")
 			f.set(x, SV{T: fmt.Sprintf("(select %s %s)", base.T, ix)})
 		case *types.Basic: // string
-			vc.safety(x.Pos(), pc, "index", vc.inBounds(ix, fmt.Sprintf("(str.len %s)", base.T), x.Index.Type()), "string index in range")
-			f.set(x, SV{T: fmt.Sprintf("(select (str.arr %s) %s)", base.T, ix)})
+			vc.safety(x.Pos(), pc, "index", vc.inBounds(ix, fmt.Sprintf("(gostr.len %s)", base.T), x.Index.Type()), "string index in range")
+			f.set(x, SV{T: fmt.Sprintf("(select (gostr.arr %s) %s)", base.T, ix)})
 		default:
 			vc.unsupported(x.Pos(), "index on %s", x.X.Type())
 		}
@@ -557,8 +569,8 @@ func (f *Frame) exec(ins ssa.Instruction, pc string, st *State) {
 		base := f.val(x.X)
 		if isString(x.X.Type()) {
 			ix := vc.toIdx(f.val(x.Index), x.Index.Type())
-			vc.safety(x.Pos(), pc, "index", vc.inBounds(ix, fmt.Sprintf("(str.len %s)", base.T), x.Index.Type()), "string index in range")
-			f.set(x, SV{T: fmt.Sprintf("(select (str.arr %s) %s)", base.T, ix)})
+			vc.safety(x.Pos(), pc, "index", vc.inBounds(ix, fmt.Sprintf("(gostr.len %s)", base.T), x.Index.Type()), "string index in range")
+			f.set(x, SV{T: fmt.Sprintf("(select (gostr.arr %s) %s)", base.T, ix)})
 		} else {
 			vc.unsupported(x.Pos(), "map lookup")
 			f.set(x, SV{T: vc.decl("lookup", vc.S.sortOf(x.Type()))})
@@ -745,17 +757,17 @@ func (f *Frame) sliceOp(x *ssa.Slice, pc string, st *State) {
 	case *types.Basic: // string
 		s := f.val(x.X)
 		if !hasHi {
-			hi = fmt.Sprintf("(str.len %s)", s.T)
+			hi = fmt.Sprintf("(gostr.len %s)", s.T)
 		}
-		vc.safety(x.Pos(), pc, "slice", and(vc.idxLe(lo, hi), vc.idxLe(hi, fmt.Sprintf("(str.len %s)", s.T))), "string slice bounds in range")
+		vc.safety(x.Pos(), pc, "slice", and(vc.idxLe(lo, hi), vc.idxLe(hi, fmt.Sprintf("(gostr.len %s)", s.T))), "string slice bounds in range")
 		// substring: shifted contents
 		n := vc.decl("substr", "Str")
 		i := "(_i " + vc.S.idxSort() + ")"
 		_ = i
-		vc.assume(pc, fmt.Sprintf("(= (str.len %s) %s)", n, vc.idxSub(hi, lo)))
+		vc.assume(pc, fmt.Sprintf("(= (gostr.len %s) %s)", n, vc.idxSub(hi, lo)))
 		// the first 8 bytes are related explicitly (enough for verb dispatch); the rest through str.sub
 		for k := int64(0); k < 4; k++ {
-			vc.assume(pc, fmt.Sprintf("(= (select (str.arr %s) %s) (select (str.arr %s) %s))", n, vc.S.idxLit(k), s.T, vc.idxAdd(lo, vc.S.idxLit(k))))
+			vc.assume(pc, fmt.Sprintf("(= (select (gostr.arr %s) %s) (select (gostr.arr %s) %s))", n, vc.S.idxLit(k), s.T, vc.idxAdd(lo, vc.S.idxLit(k))))
 		}
 		vc.assum["substring contents beyond the first 4 bytes are unconstrained"] = true
 		f.set(x, SV{T: n})
